@@ -1,6 +1,7 @@
 package main
 
 import (
+	"os"
 	"fmt"
 	"go/ast"
 	"go/token"
@@ -230,6 +231,9 @@ func eventCode(name string) int64 {
 }
 
 func (vc *VC) emitEventSparse(st *State, name string, args []*Term) {
+	if os.Getenv("GOVC_DEBUG_DEFER") != "" {
+		fmt.Fprintf(os.Stderr, "  event %s\n", name)
+	}
 	n := vc.heap(st, "$TraceLen", SInt)
 	tr := vc.heap(st, "$Trace", SArr)
 	st.heaps["$Trace"] = Store(tr, n, IntK(eventCode(name)))
@@ -247,6 +251,9 @@ func (vc *VC) emitEventSparse(st *State, name string, args []*Term) {
 
 // emitEvent appends an event to the ghost trace.
 func (vc *VC) emitEvent(st *State, name string, args []*Term) {
+	if os.Getenv("GOVC_DEBUG_DEFER") != "" {
+		fmt.Fprintf(os.Stderr, "  event %s\n", name)
+	}
 	n := vc.heap(st, "$TraceLen", SInt)
 	tr := vc.heap(st, "$Trace", SArr)
 	st.heaps["$Trace"] = Store(tr, n, IntK(eventCode(name)))
